@@ -73,6 +73,8 @@ def render(v):
         return f"{v[1]}[{render(v[2])}]"
     if k == "ornone":
         return f"({render(v[1])} or None)"
+    if k == "encreq":
+        return f"[{v[3][1]} if a session of {render(v[1])} sets {v[2]}, {v[3][2]} if none does, {v[3][0]} without session area]"
     if k == "penc":
         return "is_parameter_encryption(" + ", ".join(f"{a}={render(b)}" for a, b in v[1]) + ")"
     return repr(v)
@@ -89,6 +91,59 @@ class Specialiser:
         # locals that are only keyword-argument bundles: splatted as `**name` into a call other than the object constructor
         self.kwdict_names = {k.value.id for c in ast.walk(fn) if isinstance(c, ast.Call) and not (isinstance(c.func, ast.Name) and c.func.id == "tpm_type")
                              for k in c.keywords if k.arg is None and isinstance(k.value, ast.Name)}
+
+    # ------------------------------------------------------------------ encryption requests (tpmsa.encreq)
+    def enc_request(self, e, s):
+        """abstract value of an expression that calls into the encryption-request functions of the project: its normal form
+        ("encreq", <area value>, bit, (absent, any, none)), a ("kwdict", ...) for a method handing back keyword arguments, or
+        None when the expression is nothing of the kind"""
+        project = getattr(self, "project", None) or getattr(self.L.m, "project", None)
+        if project is None:
+            return None
+        from . import encreq
+        sess = getattr(project, "_session_functions", None)
+        if sess is None:
+            sess = project._session_functions = encreq.session_functions({n: m.tree for n, m in project.modules.items()})
+        called = {(c.func.id if isinstance(c.func, ast.Name) else c.func.attr if isinstance(c.func, ast.Attribute) else None)
+                  for c in ast.walk(e) if isinstance(c, ast.Call)}
+        if not (called & sess) or "is_parameter_encryption" in called:
+            return None
+        free = {n.id for n in ast.walk(e) if isinstance(n, ast.Name) and n.id in s.env}
+        try:
+            r = encreq.evaluate(project, self.mod, e, free)
+        except encreq.Unsupported as ex:
+            self.notes.append(f"encryption request `{norm(e)[:60]}` not evaluated: {ex}")
+            return None
+        if r is None:
+            return None
+        if isinstance(r, dict):
+            return ("encreq", self.ev(r["area"], s), r["bit"], (r["absent"], r["any"], r["none"]))
+        # keyword arguments: one abstract value per key
+        keys = None
+        for _a, v in r:
+            if v[0] != "dict":
+                return None
+            keys = set(v[1]) if keys is None else keys
+            if set(v[1]) != keys:
+                return None
+        out = []
+        for k in sorted(keys or ()):
+            vals = [(a, v[1][k]) for a, v in r]
+            texts = {(x[0], norm(x[1]) if x[0] == "sym" else repr(x[1:])) for _a, x in vals}
+            if len(texts) == 1:
+                x = vals[0][1]
+                if x[0] == "sym":
+                    out.append((k, self.ev(x[1], s), e))
+                elif x[0] == "const":
+                    out.append((k, ("const", x[1]), e))
+                else:
+                    return None
+                continue
+            t = encreq.table(vals)
+            if t is None:
+                return None
+            out.append((k, ("encreq", self.ev(t["area"], s), t["bit"], (t["absent"], t["any"], t["none"])), e))
+        return ("kwdict", tuple(out))
 
     # ------------------------------------------------------------------ driver
     def run(self):
@@ -618,6 +673,10 @@ class Specialiser:
             return ("index", b, k)
         if isinstance(e, ast.BinOp) and isinstance(e.op, (ast.Div, ast.Add)):
             return ("path", self.ev(e.left, s), self.ev(e.right, s))
+        if isinstance(e, (ast.BoolOp, ast.Call, ast.IfExp)):
+            er = self.enc_request(e, s)
+            if er is not None:
+                return er
         if isinstance(e, ast.BoolOp) and isinstance(e.op, ast.Or) and len(e.values) == 2 and \
                 isinstance(e.values[1], ast.Constant) and e.values[1].value is None:
             return ("ornone", self.ev(e.values[0], s))
